@@ -322,13 +322,21 @@ def run(rep):
         states += r['states']
         trans += r['transitions']
         per.append(r)
+    # larger hierarchies inside one WBS, built directly (every ordered forest of 4 tasks, the forests of 5 tasks with >= 3 levels;
+    # every placement of <= 1 link, thorough: <= 2 for 4 tasks): sibling order of summaries among leaves below a non-root parent
+    for uname, deep, ml in (('U4o', False, 1 if rep.tier == 'quick' else 2), ('U5', True, 1)):
+        st = bfs.seeded_states(uname, deep_only=deep, in_wbs=(True,), max_links=ml)
+        _U = bfs.make_universe(uname)
+        runtime.run_chunks(_work, runtime.split(list(st.items()), runtime.n_workers() * 3), rep.acc)
+        states += len(st)
+        per.append({'universe': uname, 'start_states_built_directly': len(st), 'link_bound': ml})
     c = rep.acc.counters
     rep.coverage.update({
         'states': states, 'transitions': trans + c['copies'] + c['independence_checks'] * 2,
         'traces_validated_against_impl': trans + c['copies'] + c['independence_checks'] * 2,
         'evaluations': c['copies'], 'distinct_nontrivial': c['nontrivial'],
         'rule': 'every state reachable through attach/re-parent/link operations in universes of 2-3 tasks around WBS X plus one task in '
-                'WBS Y (also with the outside task sharing an id with a member), links bounded per universe; in each state X.clone() and '
+                'WBS Y (also with the outside task sharing an id with a member), links bounded per universe, plus directly built states of 4 and 5 tasks in one WBS (all ordered forests / those with >= 3 levels); in each state X.clone() and '
                 'X.subtree(R) for every non-empty antichain R (list form, bare task for singletons); after each copy %d kinds of API-level '
                 'mutation applied to a fresh copy and to the source. non-trivial = copies of proper sub-selections or of states with links' % len(MUTATIONS),
         'universes': per, 'copies': c['copies'], 'independence_checks': c['independence_checks'],
